@@ -309,7 +309,6 @@ Section RunSpec.
 
     Definition opened_days (o : opened) : list (nat * lognode NM) * option cerr :=
       match o with
-      | ONone => stream_days [] NoFault
       | OData d f => stream_days d f
       | ODir => stream_days [] (FailAt 0)
       end.
